@@ -32,6 +32,96 @@ HEADER = "sigpyproc.header"
 FIELD_EXCEPTIONS = {"stream_info": "per-file bookkeeping of the input files, not observational metadata"}
 
 
+def _affine(e: ast.AST):
+    """(c0, c1) with e = c0 + c1 * radius, or None."""
+    if isinstance(e, ast.Constant) and isinstance(e.value, int) and not isinstance(e.value, bool):
+        return (e.value, 0)
+    if isinstance(e, ast.Name) and e.id == "radius":
+        return (0, 1)
+    if isinstance(e, ast.UnaryOp) and isinstance(e.op, ast.USub):
+        a = _affine(e.operand)
+        return None if a is None else (-a[0], -a[1])
+    if isinstance(e, ast.BinOp) and isinstance(e.op, (ast.Add, ast.Sub)):
+        a, b = _affine(e.left), _affine(e.right)
+        if a is None or b is None:
+            return None
+        sg = 1 if isinstance(e.op, ast.Add) else -1
+        return (a[0] + sg * b[0], a[1] + sg * b[1])
+    if isinstance(e, ast.BinOp) and isinstance(e.op, ast.Mult):
+        a, b = _affine(e.left), _affine(e.right)
+        if a is None or b is None:
+            return None
+        if a[1] == 0:
+            return (a[0] * b[0], a[0] * b[1])
+        if b[1] == 0:
+            return (a[0] * b[0], a[1] * b[0])
+    return None
+
+
+def _lag_intervals(e: ast.AST):
+    """A list of half-open integer intervals (lo, hi), bounds affine in radius >= 1, denoted by an index-set expression:
+    np.arange(a, b), np.concatenate([...]) / np.hstack / np.r_[...], X + k, X[X != k].  None when the expression is none of these."""
+    if isinstance(e, ast.Call) and dotted(e.func) in ("np.arange", "range") and 1 <= len(e.args) <= 2 and not any(k.arg in ("step",) for k in e.keywords):
+        lo = _affine(e.args[0]) if len(e.args) == 2 else (0, 0)
+        hi = _affine(e.args[-1])
+        return None if lo is None or hi is None else [(lo, hi)]
+    if isinstance(e, ast.Call) and dotted(e.func) in ("np.concatenate", "np.hstack") and e.args and isinstance(e.args[0], (ast.List, ast.Tuple)):
+        out = []
+        for x in e.args[0].elts:
+            iv = _lag_intervals(x)
+            if iv is None:
+                return None
+            out += iv
+        return out
+    if isinstance(e, ast.Subscript) and dotted(e.value) == "np.r_":
+        out = []
+        for x in (e.slice.elts if isinstance(e.slice, ast.Tuple) else [e.slice]):
+            if isinstance(x, ast.Slice) and x.step is None and x.upper is not None:
+                lo = _affine(x.lower) if x.lower is not None else (0, 0)
+                hi = _affine(x.upper)
+                if lo is None or hi is None:
+                    return None
+                out.append((lo, hi))
+            else:
+                iv = _lag_intervals(x)
+                if iv is None:
+                    return None
+                out += iv
+        return out
+    if isinstance(e, ast.BinOp) and isinstance(e.op, (ast.Add, ast.Sub)):
+        iv, k = _lag_intervals(e.left), _affine(e.right)
+        if iv is None and isinstance(e.op, ast.Add):
+            iv, k = _lag_intervals(e.right), _affine(e.left)
+        if iv is None or k is None:
+            return None
+        sg = 1 if isinstance(e.op, ast.Add) else -1
+        return [((lo[0] + sg * k[0], lo[1] + sg * k[1]), (hi[0] + sg * k[0], hi[1] + sg * k[1])) for lo, hi in iv]
+    if isinstance(e, ast.Subscript) and isinstance(e.slice, ast.Compare) and len(e.slice.ops) == 1 and isinstance(e.slice.ops[0], ast.NotEq) \
+            and norm(e.slice.left) == norm(e.value):
+        iv, k = _lag_intervals(e.value), _affine(e.slice.comparators[0])
+        if iv is None or k is None:
+            return None
+        out = []
+        for lo, hi in iv:
+            # the point k is inside [lo, hi) for every radius >= 1 iff lo <= k < hi at radius = 1 and the bounds move apart
+            inside = all(lo[0] + lo[1] * r <= k[0] + k[1] * r < hi[0] + hi[1] * r for r in (1, 2, 7))
+            outside = all(not (lo[0] + lo[1] * r <= k[0] + k[1] * r < hi[0] + hi[1] * r) for r in (1, 2, 7))
+            if inside:
+                out += [(lo, k), ((k[0] + 1, k[1]), hi)]
+            elif outside:
+                out.append((lo, hi))
+            else:
+                return None
+        return [(a, b) for a, b in out if a != b]
+    return None
+
+
+def _show_intervals(ivs) -> str:
+    def t(c):
+        return f"{c[1]}*radius{c[0]:+d}".replace("1*radius", "radius").replace("0*radius", "").replace("+0", "") or "0"
+    return ", ".join(f"[{t(lo)}, {t(hi)})" for lo, hi in sorted(ivs or []))
+
+
 def run(prog: Program, res: Result, tier: str) -> None:
     prog.consulted.update({RFI, BASE, HEADER, KMOD})
     cls = prog.cls(RFI, "RFIMask")
@@ -83,7 +173,7 @@ def run(prog: Program, res: Result, tier: str) -> None:
     sm = nfp.sets("self.stats_mask")
     ok = len(sm) == 2
     for e in sm:
-        fnm = "double_mad_mask" if e.selects("method", "mad") else "iqrm_mask" if e.selects("method", "iqrm") else None
+        fnm = "double_mad_mask" if nfp.selects(e, "method", "mad") else "iqrm_mask" if nfp.selects(e, "method", "iqrm") else None
         if fnm is None:
             ok = False
             continue
@@ -123,6 +213,21 @@ def run(prog: Program, res: Result, tier: str) -> None:
     (res.ok if okv else res.bad)("R1", f, views[0] if views else f.node, "the lag window is a strided view with the strides of the padded copy it walks" if okv else
                                  "iqrm_mask: as_strided is given strides that are not those of the array it views (a non-contiguous statistics vector then "
                                  "gives a wrong mask and out-of-bounds reads)", construct="as_strided", key="iqrm_mask:strides")
+    # the lags compared are every offset -radius..-1 and 1..radius, once: as a set of integer intervals with bounds affine in
+    # `radius` (np.arange / concatenate / r_ / a `!= 0` filter), whatever the spelling
+    lag_uses = [n_ for n_ in ast.walk(f.node) if isinstance(n_, ast.Subscript) and isinstance(n_.slice, ast.Tuple) and len(n_.slice.elts) == 2
+                and "radius" in norm(n_.slice.elts[1]) and isinstance(n_.ctx, ast.Load)]
+    okl, whyl = False, "the window of neighbours is no longer selected as `view[:, lags + radius]`"
+    if len(lag_uses) == 1:
+        col = flq.expand(lag_uses[0].slice.elts[1], flq.cfg.node_for(lag_uses[0]))
+        ivs = _lag_intervals(col)
+        want_iv = sorted([((0, 0), (0, 1)), ((1, 1), (1, 2))])     # columns [0, radius) and [radius + 1, 2 radius + 1)
+        okl = ivs is not None and sorted(ivs) == want_iv
+        whyl = (f"the lags selected are columns {_show_intervals(ivs)} of the padded window, not [0, radius) and [radius+1, 2*radius+1): "
+                "a neighbour at distance radius (or the channel itself) is compared wrongly" if ivs is not None else
+                f"the set of lags `{norm(col)[:100]}` is not an arange / concatenate / filter expression in radius")
+    (res.ok if okl else res.bad)("R1", f, lag_uses[0] if lag_uses else f.node, "every lag -radius..-1 and 1..radius is compared, once" if okl else f"iqrm_mask: {whyl}",
+                                 construct="lags", key="iqrm_mask:lags")
     # the custom component is monotone too
     cf = cls.methods["apply_funcn"]
     nfc_ = normal_form(cf)
@@ -266,19 +371,24 @@ def run(prog: Program, res: Result, tier: str) -> None:
         else:
             res.bad("R4", tf, hdr.fields[name], f"Header.{name} has type {ann}, which to_file's isinstance filter ({sorted(stored_types)}) skips, and it is "
                     f"not stored/reloaded explicitly: a mask loaded from file has the default {name}", key=key)
-    ok = "fp.attrs['threshold'] = self.threshold" in tsrc and "'threshold': fp_attrs['threshold']" in fsrc
+    # what from_file hands to the constructor, by keyword (a keyword mapping built in a local has been expanded by the pre-pass)
+    ctor_ff = [c for c in calls_in_body(ff.node) if dotted(c.func) == "cls"]
+    ctor_kw = {k.arg: norm(k.value) for c in ctor_ff for k in c.keywords}
+    ok = "fp.attrs['threshold'] = self.threshold" in tsrc and ("'threshold': fp_attrs['threshold']" in fsrc or ctor_kw.get("threshold") == "fp_attrs['threshold']")
     (res.ok if ok else res.bad)("R4", tf, tf.node, "threshold is stored and reloaded" if ok else "threshold is not stored/reloaded", construct="threshold", key="file:threshold")
     ok = "for key, value in attrs.asdict(self).items():" in tsrc and "if isinstance(value, np.ndarray): fp.create_dataset(key, data=value)" in tsrc and \
-        "fp_stats = {key: np.array(val) for key, val in fp.items()}" in fsrc and "**fp_stats" in fsrc
+        "fp_stats = {key: np.array(val) for key, val in fp.items()}" in fsrc and ("**fp_stats" in fsrc or ctor_kw.get(None) == "fp_stats")
     arr_fields = [n for n in cls.attrs_fields if norm(cls.fields[n].annotation) == "np.ndarray"]
     (res.ok if ok and len(arr_fields) == 10 else res.bad)("R4", tf, tf.node, f"all {len(arr_fields)} array fields are stored as datasets by field name and passed back by name"
                                                           if ok else "array fields are no longer stored/reloaded by field name", construct="arrays", key="file:arrays")
-    ok = "if key in attrs.fields_dict(Header)" in fsrc and "'header': Header(**hdr_checked)" in fsrc
+    ok = "if key in attrs.fields_dict(Header)" in fsrc and ("'header': Header(**hdr_checked)" in fsrc or ctor_kw.get("header") == "Header(**hdr_checked)")
     (res.ok if ok else res.bad)("R4", ff, ff.node, "the header is rebuilt from the stored attributes that are Header fields" if ok else
                                 "from_file no longer rebuilds the Header from the stored attributes", construct="from_file header", key="file:rebuild")
     # ---- R1 (cont.) the z-scores the masks threshold (shared with C15.R1) ----------------------------------------------
-    depends(res, "R1", prog, tier, "C15", accept=lambda o: (o.key or "").startswith("zscore:"),
+    depends(res, "R1", prog, tier, "C15", accept=lambda o: (o.key or "").startswith(("zscore:", "estimator:")),
             why="both mask methods threshold estimate_zscore(...).data: C15's rules for that function are re-evaluated here")
+    from ..lints import check_no_falsy_zero
+    check_no_falsy_zero(prog, res, "R3", ["sigpyproc.base", RFI], "mask_value = 0 (or start = 0) would be treated as not given")
     res.floor("R1", 13)
     res.floor("R2", 1)
     res.floor("R3", 13)
@@ -330,4 +440,11 @@ MUTANTS += [
     {"id": "c16-revert-F59", "file": "sigpyproc/core/rfi.py", "expect": "C16.R4",
      "old": "                    np.integer | np.floating | np.bool_ | int | float | str,\n", "new": "                    np.integer | np.floating | int | float | str,\n"},
 ]
-TWINS = []
+MUTANTS += [
+    {"id": "c16-iqrm-lags-half-open", "file": "sigpyproc/core/rfi.py", "expect": "C16.R1",
+     "old": "    lags = np.concatenate([np.arange(-radius, 0), np.arange(1, radius + 1)])", "new": "    lags = np.arange(-radius, radius)\n    lags = lags[lags != 0]"},
+]
+TWINS = [
+    {"id": "c16-twin-iqrm-lags-filter", "file": "sigpyproc/core/rfi.py",
+     "old": "    lags = np.concatenate([np.arange(-radius, 0), np.arange(1, radius + 1)])", "new": "    lags = np.arange(-radius, radius + 1)\n    lags = lags[lags != 0]"},
+]
